@@ -9,6 +9,8 @@
 package hs
 
 import (
+	"fmt"
+
 	tls "github.com/refraction-networking/utls"
 )
 
@@ -59,3 +61,21 @@ func ParrotByName(name string) (Parrot, bool) {
 }
 
 func IsGREASE(v uint16) bool { return v&0x0f0f == 0x0a0a && v>>8 == v&0xff }
+
+// RandomizedParrots: n reproducible HelloRandomized fingerprints (PRNG seeds derived from seed).
+func RandomizedParrots(n int, seed int64) []Parrot {
+	var out []Parrot
+	for i := 0; i < n; i++ {
+		var ps tls.PRNGSeed
+		x := uint64(seed)*0x9e3779b97f4a7c15 + uint64(i+1)*0xbf58476d1ce4e5b9
+		for j := range ps {
+			x ^= x >> 30
+			x *= 0x94d049bb133111eb
+			x ^= x >> 27
+			ps[j] = byte(x >> 24)
+		}
+		id := tls.ClientHelloID{Client: tls.HelloRandomized.Client, Version: tls.HelloRandomized.Version, Seed: &ps}
+		out = append(out, Parrot{fmt.Sprintf("Randomized_%d", i), id})
+	}
+	return out
+}
